@@ -31,8 +31,10 @@ QuestionLists == {"query_questions", "response_questions"}
 RRLists == {"query_answers", "query_authority", "query_additional",
             "response_answers", "response_authority", "response_additional"}
 
-(* hints: [qrh, sigh, rrh, odh] as small integers *)
-HintsOf(bp) == [qrh |-> ToInt(bp.qrh), sigh |-> ToInt(bp.sigh), rrh |-> ToInt(bp.rrh), odh |-> ToInt(bp.odh)]
+(* hints: [qrh, sigh, rrh, odh] as small integers; every assigned bit lies below 2^24, so the low three bytes *)
+(* decide (a hint may carry any unassigned bit of its declared width, which has no effect on storage)           *)
+Low3(s) == LET t == Strip(s) IN ToInt(IF Len(t) <= 3 THEN t ELSE SubSeq(t, Len(t) - 2, Len(t)))
+HintsOf(bp) == [qrh |-> Low3(bp.qrh), sigh |-> Low3(bp.sigh), rrh |-> Low3(bp.rrh), odh |-> Low3(bp.odh)]
 
 KeepQR(f, rec, h) ==
     IF f \in Unhinted THEN TRUE
